@@ -163,6 +163,30 @@ func C02(c *core.Ctx) error {
 		}
 		bad := map[string]bool{}
 		other := 0
+		// errors inside the generated file: a mock that does not compile does not implement anything. The corpus
+		// excludes the inputs known not to compile (C01), so these are reported here, attributed by position.
+		{
+			o2 := *o
+			o2.errs = nil
+			for _, e := range errs {
+				if e.File != g.assertFile() {
+					o2.errs = append(o2.errs, e)
+				}
+			}
+			by, rest := attribute(&o2, g.outFile())
+			for n, e := range by {
+				if cs, ok := byName[n]; ok && !bad[n] {
+					bad[n] = true
+					c.Report(fmt.Sprintf("not-compilable|%s|%s|%s", cs.ID, g.template, gocheck.Signature(e.Msg)),
+						fmt.Sprintf("[%s] interface %q: the generated mock does not compile, so it cannot implement the source interface: %s\n%s", g, cs.ID, firstN(e.Msg, 300), cs.Decl),
+						map[string]any{"combo": g.String(), "case": cs.ID, "decl": cs.Decl, "error": e.String()})
+				}
+			}
+			for _, e := range rest {
+				c.Report(fmt.Sprintf("not-compilable|file|%s|%s", g.template, gocheck.Signature(e.Msg)),
+					fmt.Sprintf("[%s] the generated file does not compile (not attributable to one interface): %s", g, e), map[string]any{"combo": g.String(), "error": e.String()})
+			}
+		}
 		for _, e := range errs {
 			if e.File == g.assertFile() {
 				if n, ok := lineCase[e.Line]; ok && !bad[n] {
